@@ -190,6 +190,7 @@ int main(void) {
     nat("linearThreshold", LINEAR_THRESHOLD);
     nat("sortedThreshold", SORTED_THRESHOLD);
     nat("maxRecursionDepth", MAX_RECURSION_DEPTH);
+    nat("maxNestingDepth", EDN_MAX_NESTING_DEPTH);
     nat("initialBucketCount", INITIAL_BUCKET_COUNT);
     nat("arenaInitialSize", ARENA_INITIAL_SIZE);
     nat("arenaMediumSize", ARENA_MEDIUM_SIZE);
